@@ -178,6 +178,9 @@ func handlerFunc(app *fiber.App, h ...fiber.Handler) http.HandlerFunc {
 		fctx.Response.Reset()
 		fctx.Request.Reset()
 		defer ctxPool.Put(fctx)
+		// Init keeps the user values (fiber's Locals) of the request that used this ctx before:
+		// drop them when the request is done, as fasthttp's server does
+		defer fctx.ResetUserValues()
 		fctx.Init(req, remoteAddr, &disableLogger{})
 
 		if len(h) > 0 {
